@@ -278,28 +278,52 @@ mod v_iface_pollat {
         }
 
         // ------------------------------------------------------------------ poll vs poll_at on a real interface
-        // Medium, SLAAC history and whether a datagram is queued are concrete on each path (a concrete
-        // SLAAC phase keeps Slaac::poll_at / sync_required cheap).  SLAAC runs on Ethernet (modelling note
-        // at the top).  The poll itself is `poll_core` below.
+        // The real `Interface::poll` runs on `AskDev`: a device without pending frames that counts the
+        // transmit tokens it is asked for and hands none out.  Under this feature set one dispatch_ip costs
+        // > 0.5M symex steps (every IPv6 payload emitter is explored) and `poll` contains up to six of them,
+        // some inside loops; with `AskDev` none is reachable, while the question C13 asks of a poll is
+        // still answered exactly: `asked == 0` iff this poll would not have tried to transmit anything,
+        // and in that case the device was never consulted, so the poll ran exactly as it would have on a
+        // device that accepts every frame.  (When `asked > 0` the harnesses claim nothing.)
+        // SLAAC runs on Ethernet (modelling note at the top).  No address is configured through
+        // update_ip_addrs, so no multicast join is pending (MLD is outside C13).
+        pub(super) struct AskDev {
+            pub(super) medium: Medium,
+            pub(super) asked: usize,
+        }
+        impl Device for AskDev {
+            type RxToken<'a> = crate::verif_dev::NoRx;
+            type TxToken<'a> = crate::verif_dev::NoTx;
+            fn capabilities(&self) -> DeviceCapabilities {
+                let mut c = DeviceCapabilities::default();
+                c.medium = self.medium;
+                c.max_transmission_unit = 1500;
+                c.checksum = ChecksumCapabilities::ignored();
+                c
+            }
+            fn receive(&mut self, _t: Instant) -> Option<(crate::verif_dev::NoRx, crate::verif_dev::NoTx)> {
+                None
+            }
+            fn transmit(&mut self, _t: Instant) -> Option<crate::verif_dev::NoTx> {
+                self.asked += 1;
+                None
+            }
+        }
+
         macro_rules! poll_env {
-            ($dev:ident, $iface:ident, $sockets:ident, $now:ident, $slaac_on:expr, $tag:expr, $queued:expr) => {
-                let eth = $slaac_on;
-                let mut $dev = CapDev::<FRAME>::new(medium(eth), 1500, ChecksumCapabilities::ignored());
+            ($dev:ident, $iface:ident, $sockets:ident, $now:ident, $tag:ident, $max_tag:expr, $queued:ident) => {
+                let mut $dev = AskDev { medium: Medium::Ethernet, asked: 0 };
                 let $now = any_us(0, T_MAX);
-                let mut $iface = Interface::new(config(eth, $slaac_on), &mut $dev, us(0));
-                $iface.update_ip_addrs(|a| {
-                    a.push(IpCidr::Ipv6(Ipv6Cidr::new(LL, 64))).unwrap();
-                });
-                // histories without a stored route: with one, `sync_slaac_state` alone is beyond the memory
-                // budget at this unwinding bound (stored lifetimes are covered at `Slaac` level, iface_slaac.rs)
-                if $slaac_on {
-                    slaac_history(&mut $iface, $now, $tag);
-                }
+                let mut $iface = Interface::new(config(true, true), &mut $dev, us(0));
+                $iface.inner.ip_addrs.push(IpCidr::Ipv6(Ipv6Cidr::new(LL, 64))).unwrap();
+                let $tag: u8 = kani::any();
+                kani::assume($tag <= $max_tag);
+                slaac_history(&mut $iface, $now, $tag);
                 udp_socket!(u0, 1000);
                 let mut storage = [SocketStorage::EMPTY];
                 let mut $sockets = SocketSet::new(&mut storage[..]);
+                let $queued: bool = kani::any();
                 if $queued {
-                    // multicast destination: no neighbor discovery on Ethernet
                     u0.send_slice(&[1, 2], IpEndpoint::new(IpAddress::Ipv6(ALL_NODES), 7)).unwrap();
                 }
                 $sockets.add(u0);
@@ -307,82 +331,32 @@ mod v_iface_pollat {
             };
         }
 
-        /// `Interface::poll(t, ..)` as it runs on a device without pending frames, `multicast_egress` left
-        /// out: that function (MLD joins/leaves/reports, outside C13) searches a heapless map in `while`
-        /// loops that CBMC unrolls to the unwinding bound with a complete dispatch_ip in every round,
-        /// which no memory budget survives.  Everything else is the original sequence of calls:
-        /// poll_maintenance; socket_ingress until it reports None; then poll_egress rounds
-        /// { ndisc_rs_egress if SLAAC is enabled; socket_egress } until a round sends nothing.
-        fn poll_core(iface: &mut Interface, t: Instant, dev: &mut CapDev<FRAME>, sockets: &mut SocketSet<'_>) -> PollResult {
-            iface.inner.now = t;
-            let mut res = PollResult::None;
-            iface.poll_maintenance(t);
-            let ing = iface.socket_ingress(dev, sockets);
-            assert!(ing == PollIngressSingleResult::None, "inv:no_frame_pending");
-            // egress round 1
-            iface.inner.now = t;
-            if iface.inner.slaac_enabled {
-                iface.ndisc_rs_egress(dev);
-            }
-            if iface.socket_egress(dev, sockets) == PollResult::SocketStateChanged {
-                res = PollResult::SocketStateChanged;
-                // egress round 2
-                if iface.inner.slaac_enabled {
-                    iface.ndisc_rs_egress(dev);
-                }
-                let again = iface.socket_egress(dev, sockets);
-                assert!(again == PollResult::None, "inv:egress_loop_ends_after_two_rounds");
-            }
-            res
-        }
-
-        fn nonspin_path(slaac_on: bool, tag: u8, queued: bool) {
-            poll_env!(dev, iface, sockets, now, slaac_on, tag, queued);
+        pub(super) fn nonspin_body() {
+            poll_env!(dev, iface, sockets, now, tag, 3, queued);
             let nowi = us(now);
-            crate::vdump!("PRE now={} slaac_enabled={} slaac={:?} udp_queued={}", nowi, slaac_on, iface.inner.slaac, queued);
-            let res = poll_core(&mut iface, nowi, &mut dev, &mut sockets);
-            let frames = dev.tx.frames;
+            crate::vdump!("PRE now={} slaac={:?} udp_queued={}", nowi, iface.inner.slaac, queued);
+            let res = iface.poll(nowi, &mut dev, &mut sockets);
+            let asked = dev.asked;
             let d = iface.poll_at(nowi, &sockets);
-            crate::vdump!("POST frames={} poll={:?} slaac={:?} poll_at={:?} poll_delay={:?}", frames, res, iface.inner.slaac, d, iface.poll_delay(nowi, &sockets));
-            if slaac_on {
-                kani::cover!(frames == 0 && tag == 1, "idle poll while waiting for the solicitation interval");
-                kani::cover!(frames == 0 && tag == 2, "idle poll after the last solicitation");
-                kani::cover!(frames == 1 && tag == 0, "first router solicitation");
-                kani::cover!(frames == 0 && tag == 3 && d.is_none(), "idle poll, router known, nothing stored");
-            } else {
-                kani::cover!(frames == 1 && queued, "datagram sent on Medium::Ip");
-                kani::cover!(frames == 0 && d.is_none(), "idle interface without SLAAC");
-            }
-            if frames == 0 {
-                // nothing received (rx_pending = false), nothing transmitted: the deadline lies ahead or is absent
+            crate::vdump!("POST transmit attempts={} poll={:?} slaac={:?} poll_at={:?} poll_delay={:?}", asked, res, iface.inner.slaac, d, iface.poll_delay(nowi, &sockets));
+            kani::cover!(asked == 0 && tag == 1, "idle poll while waiting for the solicitation interval");
+            kani::cover!(asked == 0 && tag == 2, "idle poll after the last solicitation");
+            kani::cover!(asked == 0 && tag == 3 && d.is_none(), "idle poll, router known, nothing stored");
+            kani::cover!(asked > 0 && tag == 0 && !queued, "first solicitation attempted");
+            if asked == 0 {
+                // nothing received, nothing to transmit: the deadline lies ahead or is absent
                 assert!(d.is_none() || d.unwrap() > nowi, "prop:c13_iface_idle_poll_leaves_future_deadline");
                 assert!(res == PollResult::None, "prop:c13_iface_idle_poll_reports_no_change");
             }
             if queued {
-                assert!(frames >= 1, "prop:c13_iface_due_socket_is_served");
+                assert!(asked >= 1, "prop:c13_iface_due_socket_is_served");
             }
         }
 
-        /// the SLAAC history is concrete on each path (a concrete phase keeps Slaac::poll_at / sync_required cheap)
-        pub(super) fn nonspin_body() {
-            let shape: u8 = kani::any();
-            match shape {
-                0 => nonspin_path(true, 0, false),
-                1 => nonspin_path(true, 1, false),
-                2 => nonspin_path(true, 2, false),
-                _ => nonspin_path(true, 3, false),
-            }
-        }
-
-        pub(super) fn nonspin_ip_body() {
-            if kani::any() { nonspin_path(false, 0, true) } else { nonspin_path(false, 0, false) }
-        }
-
-        /// (a queued datagram makes poll_at "now": no early instant exists, so the socket is idle here)
-        fn early_path(tag: u8) {
-            poll_env!(dev, iface, sockets, now, true, tag, false);
+        pub(super) fn early_body() {
+            poll_env!(dev, iface, sockets, now, tag, 3, queued);
             let nowi = us(now);
-            crate::vdump!("PRE now={} slaac={:?}", nowi, iface.inner.slaac);
+            crate::vdump!("PRE now={} slaac={:?} udp_queued={}", nowi, iface.inner.slaac, queued);
             let d = iface.poll_at(nowi, &sockets);
             // any probe instant from `now` up to (excluding) the advertised deadline
             let t = any_us(now, T_MAX + RSI);
@@ -392,22 +366,12 @@ mod v_iface_pollat {
             };
             kani::assume(early);
             crate::vdump!("poll_at({}) = {:?}; polling at {}", nowi, d, us(t));
-            let _ = poll_core(&mut iface, us(t), &mut dev, &mut sockets);
-            crate::vdump!("POST frames={} slaac={:?}", dev.tx.frames, iface.inner.slaac);
+            let _ = iface.poll(us(t), &mut dev, &mut sockets);
+            crate::vdump!("POST transmit attempts={} slaac={:?}", dev.asked, iface.inner.slaac);
             kani::cover!(tag == 1 && t > now, "probe inside the solicitation interval");
-            kani::cover!(tag == 3 && d.is_none(), "nothing stored: no deadline at all");
-            kani::cover!(tag == 2 && t > now, "probe after the last solicitation");
-            assert!(dev.tx.frames == 0, "prop:c13_iface_nothing_sent_before_poll_at");
-        }
-
-        pub(super) fn early_body() {
-            let shape: u8 = kani::any();
-            match shape {
-                0 => early_path(0),
-                1 => early_path(1),
-                2 => early_path(2),
-                _ => early_path(3),
-            }
+            kani::cover!(tag == 0 && d.is_none(), "first solicitation pending, yet no deadline advertised");
+            kani::cover!(tag == 3 && d.is_none() && t > now, "nothing stored: no deadline at all");
+            assert!(dev.asked == 0, "prop:c13_iface_nothing_sent_before_poll_at");
         }
     }
 
@@ -439,21 +403,14 @@ mod v_iface_pollat {
         v6::combination_two_body();
     }
 
-    // @harness props=C13 cfg=KI6 tier=q to=900 mem=8 unwind=18 opts=nomem covers=4 funcs=Interface::poll_maintenance;Interface::socket_ingress;Interface::poll_at;Interface::poll_egress;Interface::poll_maintenance;Interface::ndisc_rs_egress;Interface::socket_egress;Interface::sync_slaac_state bounds=Ethernet_with_SLAAC_enabled,_4_SLAAC_histories_as_concrete_paths_(Start_|_1..=2_solicitations_|_3_unanswered_solicitations_|_router_answer_with_lifetime_0),_events_at_symbolic_instants,_no_stored_route/prefix;_device_accepts_every_frame,_no_frame_pending;_one_idle_UDP_socket;_fragmenter_empty;_Interface::poll_decomposed_into_its_calls_with_multicast_egress_(MLD,_outside_C13)_left_out;_now_<2^50_us
+    // @harness props=C13 cfg=KI6 tier=q to=900 mem=8 unwind=18 opts=nomem covers=4 funcs=Interface::poll;Interface::poll_at;Interface::poll_egress;Interface::poll_maintenance;Interface::ndisc_rs_egress;Interface::socket_egress;Interface::socket_ingress bounds=real_Interface::poll_on_Ethernet_with_SLAAC_enabled;_SLAAC_history_symbolic_(Start_|_1..=2_solicitations_|_3_unanswered_solicitations_|_router_answer_with_lifetime_0),_events_at_symbolic_instants,_no_stored_route/prefix;_device_without_pending_frames_that_counts_requested_transmit_tokens_and_grants_none_(claims_only_for_polls_that_request_none:_those_run_as_on_an_accepting_device);_one_UDP_socket_with_0..=1_queued_datagram;_fragmenter_empty;_no_multicast_join_pending;_now_<2^50_us
     #[kani::proof]
     pub(crate) fn poll_nonspin_iface() {
         #[cfg(feature = "proto-ipv6-slaac")]
         v6::nonspin_body();
     }
 
-    // @harness props=C13 cfg=KI6 tier=q to=900 mem=8 unwind=18 opts=nomem covers=2 funcs=Interface::poll_maintenance;Interface::socket_ingress;Interface::poll_at;Interface::poll_egress;Interface::socket_egress;udp::Socket::dispatch bounds=Medium::Ip,_SLAAC_disabled;_device_accepts_every_frame,_no_frame_pending;_one_UDP_socket_with_0..=1_queued_2-byte_datagram;_fragmenter_empty;_Interface::poll_decomposed_into_its_calls_with_multicast_egress_left_out;_now_<2^50_us
-    #[kani::proof]
-    pub(crate) fn poll_nonspin_iface_ip() {
-        #[cfg(feature = "proto-ipv6-slaac")]
-        v6::nonspin_ip_body();
-    }
-
-    // @harness props=C13 cfg=KI6 tier=q to=900 mem=8 unwind=18 opts=nomem covers=3 funcs=Interface::poll_maintenance;Interface::socket_ingress;Interface::poll_at;Interface::poll_egress;Interface::ndisc_rs_egress;Interface::socket_egress bounds=same_interface_as_poll_nonspin_iface;_deadline_taken_at_now,_poll_at_any_probe_instant_in_[now,deadline)
+    // @harness props=C13 cfg=KI6 tier=q to=900 mem=8 unwind=18 opts=nomem covers=3 funcs=Interface::poll;Interface::poll_at;Interface::poll_egress;Interface::ndisc_rs_egress;Interface::socket_egress bounds=same_interface_and_device_as_poll_nonspin_iface;_deadline_taken_at_now,_real_Interface::poll_at_any_probe_instant_in_[now,deadline)
     #[kani::proof]
     pub(crate) fn poll_early_iface() {
         #[cfg(feature = "proto-ipv6-slaac")]
